@@ -1115,6 +1115,7 @@ Proof.
   destruct xv as [q| | |] eqn:Exv; try rewrite <- Exv in H; clear Exv; try (early H).
   all: cbv zeta in H.
   1: match type of H with (if ?c then _ else _) = _ => destruct c end; [early H|].
+  all: match type of H with (if ?c then _ else _) = _ => destruct c end; [early H|].
   all: destruct (positions_of (w_dev (st_wl s)) (lw_geom Ld) (flattenF dwells)) as [ps|e0]; [|early H].
   all: destruct (sort_Z (map Z.of_nat ps)) as [|p0 sorted']; [early H|].
   all: match type of H with (if ?c then _ else _) = _ => destruct c end; [early H|].
